@@ -1349,6 +1349,14 @@ class Terms:
         for n in names:
             if n in PASS_THROUGH:
                 return self.operand(args[PASS_THROUGH[n]], bb, "t", depth)
+        if callee == FROM_RESIDUAL and len(args) == 1:
+            # `x?` on its failure side: the function returns Err(From::from(e)) / None — say so, instead of an opaque call
+            self_ty = ((t.get("gargs") or [""])[0] or "").strip()
+            inner = self.operand(args[0], bb, "t", depth)
+            if self_ty.startswith("core::result::Result<"):
+                return ("agg", "core::result::Result", "Err", (("0", ("residual", inner)),))
+            if self_ty.startswith("core::option::Option<"):
+                return ("agg", "core::option::Option", "None", ())
         if callee == "core::default::Default::default" and not args:
             d = default_value(t.get("gargs") or [])
             if d is not None:
@@ -1439,6 +1447,8 @@ def simplify_term(t):
         s = frozenset(simplify_term(x) for x in t[1])
         s = frozenset(x for x in s if x != ("never",)) or s
         return next(iter(s)) if len(s) == 1 else ("phi", s)
+    if t[0] == "closure" and len(t) == 3:
+        return ("closure", t[1], tuple(simplify_term(c) for c in t[2]))
     if t[0] == "agg":
         return ("agg", t[1], t[2], tuple((k, simplify_term(v)) for k, v in t[3]))
     if t[0] in ("call", "await"):
